@@ -1,7 +1,8 @@
 \* judge for C01 (and C05: same module, same constants)
 CONSTANTS
   MaxBodyKiB = 16384
-  K = 6
+  KRead = 6
+  KDispatch = 12
   SlackKiB = 1024
 INIT Init
 NEXT Next
